@@ -441,7 +441,7 @@ func vRTFilter(name string, idx int, ops []string) rule.FilterSpec {
 		rhs = []string{"b64", "b32", "x86_64", "i386", "aarch64", "ppc64le"}[vChoose(tag+"arch", 6)]
 	case "path", "exe", "key", "subj_user", "dir", "obj_user", "obj_role", "obj_type", "obj_lev_low", "obj_lev_high", "subj_role", "subj_type", "subj_sen", "subj_clr":
 		if name == "dir" {
-			rhs = "/etc"
+			rhs = []string{"/etc", "/", "/etc/"}[vChoose(tag+"dir", 3)]
 		} else if name == "path" && vParam("realpath", 0) != 0 {
 			rhs = "/etc/passwd"
 		} else {
@@ -514,7 +514,7 @@ func VH_RoundTrip() {
 		}
 		r = sr
 	case 1: // a file watch
-		fw := &rule.FileWatchRule{Type: rule.FileWatchRuleType, Path: []string{"/etc/passwd", "/etc", "/zzverif/" + vPlain("leaf", 1+vChoose("leaflen", 2))}[vChoose("path", 3)]}
+		fw := &rule.FileWatchRule{Type: rule.FileWatchRuleType, Path: []string{"/etc/passwd", "/etc", "/zzverif/" + vPlain("leaf", 1+vChoose("leaflen", 2)), "/", "/etc/"}[vChoose("path", 5)]}
 		for i := len("/zzverif/"); i < len(fw.Path); i++ {
 			vAssume(vAnd(fw.Path[i] != '/', fw.Path[i] != '.'))
 		}
